@@ -30,6 +30,7 @@ var c12EnvSources = map[string][]string{
 	"os/user":      {"*"},
 	"runtime":      {"NumGoroutine", "NumCPU", "Caller", "Callers", "Stack", "GOMAXPROCS", "ReadMemStats"},
 	"net":          {"*"},
+	"hash/maphash": {"*"},
 }
 
 // one named symbol with a reason each (DESIGN §4 C12, s3 allow-list)
@@ -62,11 +63,52 @@ func isSortCall(info *types.Info, call *ast.CallExpr) (arg ast.Expr, ok bool) {
 	}
 	full := fn.Pkg().Path() + "." + fn.Name()
 	switch full {
-	case "sort.Strings", "sort.Ints", "sort.Float64s", "sort.Slice", "sort.SliceStable", "sort.Sort", "sort.Stable",
-		"slices.Sort", "slices.SortFunc", "slices.SortStableFunc", "golang.org/x/exp/slices.Sort", "golang.org/x/exp/slices.SortFunc":
+	case "sort.Strings", "sort.Ints", "sort.Float64s", "slices.Sort", "golang.org/x/exp/slices.Sort":
 		return call.Args[0], true
+	case "sort.Slice", "sort.SliceStable":
+		// a comparator that is not a total order on the collected elements (e.g. compares
+		// strings.ToLower of the keys) leaves ties in map iteration order
+		if len(call.Args) == 2 && plainLess(info, call.Args[1], call.Args[0]) {
+			return call.Args[0], true
+		}
 	}
 	return nil, false
+}
+
+// plainLess: func(i, j int) bool { return s[i] < s[j] } (or >) on the elements
+// themselves — a total order in which only identical elements tie.
+func plainLess(info *types.Info, fn ast.Expr, slice ast.Expr) bool {
+	lit, ok := ast.Unparen(fn).(*ast.FuncLit)
+	if !ok || len(lit.Body.List) != 1 {
+		return false
+	}
+	ret, ok := lit.Body.List[0].(*ast.ReturnStmt)
+	if !ok || len(ret.Results) != 1 {
+		return false
+	}
+	be, ok := ast.Unparen(ret.Results[0]).(*ast.BinaryExpr)
+	if !ok || (be.Op != token.LSS && be.Op != token.GTR) {
+		return false
+	}
+	so := identObj(info, slice)
+	var ps []types.Object
+	for _, f := range lit.Type.Params.List {
+		for _, n := range f.Names {
+			ps = append(ps, info.Defs[n])
+		}
+	}
+	if so == nil || len(ps) != 2 {
+		return false
+	}
+	side := func(e ast.Expr) types.Object {
+		ix, ok := ast.Unparen(e).(*ast.IndexExpr)
+		if !ok || identObj(info, ix.X) != so {
+			return nil
+		}
+		return identObj(info, ix.Index)
+	}
+	a, b := side(be.X), side(be.Y)
+	return a != nil && b != nil && a != b && (a == ps[0] || a == ps[1]) && (b == ps[0] || b == ps[1])
 }
 
 func calleeName(info *types.Info, call *ast.CallExpr) string {
@@ -208,6 +250,40 @@ func runC12(r *Report) {
 			}
 		}
 	}
+	// package-level variable initialisers always run: their calls are on every path
+	nInit := 0
+	for _, path := range paths {
+		p := s.Pkgs[path]
+		for _, file := range p.Syntax {
+			for _, d := range file.Decls {
+				gd, ok := d.(*ast.GenDecl)
+				if !ok || gd.Tok != token.VAR {
+					continue
+				}
+				for _, sp := range gd.Specs {
+					vs := sp.(*ast.ValueSpec)
+					for i, v := range vs.Values {
+						name := "_"
+						if i < len(vs.Names) {
+							name = vs.Names[i].Name
+						}
+						c := &c12ctx{r: r, s: s, p: p, key: shortPkg(p.PkgPath) + ".<var " + name + ">"}
+						ast.Inspect(v, func(n ast.Node) bool {
+							if _, isLit := n.(*ast.FuncLit); isLit {
+								return false // judged when reachable
+							}
+							if call, ok := n.(*ast.CallExpr); ok {
+								nInit++
+								c.call(call, func(ast.Stmt) []ast.Stmt { return nil })
+							}
+							return true
+						})
+					}
+				}
+			}
+		}
+	}
+	r.Analysed["calls_in_package_initialisers"] = nInit
 	sort.Strings(skipped)
 	r.Analysed["packages"] = []string{"goag", "cmd/goag", "generator", "specification"}
 	r.Analysed["functions_declared"] = nFuncs
@@ -219,6 +295,8 @@ func runC12(r *Report) {
 	r.FloorMin("reachable functions", nReach, 300)
 	r.FloorMin("map-range sites reachable from Generate", nRange, 5)
 	r.FloorMin("template entry methods", len(s.TmplEnt), 60)
+	r.Analysed["template_funcmap_functions"] = s.NFuncMap
+	r.FloorMin("functions registered in the template FuncMap", s.NFuncMap, 8)
 	ruleTruncate(r, s, "C12/truncate")
 	ruleFSReads(r, s, "C12/fs-reads")
 	ruleGlobalState(r, s, "C12/global-state")
@@ -288,6 +366,10 @@ func (c *c12ctx) call(call *ast.CallExpr, following func(ast.Stmt) []ast.Stmt) {
 		key := c.key + ":" + name + "(" + types.ExprString(call.Args[0]) + ")"
 		// find the statement: must be `x := maps.Keys(m)` directly followed by sort of x
 		var asg *ast.AssignStmt
+		if c.decl == nil {
+			c.r.Violation("C12/map-iter-call", key, c.s.pos(call.Pos()), "map-order helper called in a package-level initialiser")
+			return
+		}
 		ast.Inspect(c.decl.Body, func(n ast.Node) bool {
 			if a, ok := n.(*ast.AssignStmt); ok && len(a.Rhs) == 1 && a.Rhs[0] == call && len(a.Lhs) == 1 {
 				asg = a
